@@ -685,6 +685,115 @@ def enum_hostile(tier):
                     yield {'tool': tool, 'args': pre + fmtk + ['@FILE:' + fk] + (mods if gt != 'dag' else []) + post, 'stdin': None, 'rseed': i % 5}
 
 
+# ---------------------------------------------------------------------------
+# standard descriptors that are closed (not redirected: closed, as `cmd <&-`, `2>&-`, `>&-` do)
+
+def _run_closed(tool, args, closed, cwd, hashseed='0'):
+    """real process with the descriptors in `closed` closed before the interpreter starts"""
+    import subprocess
+    import sys
+    repo = os.environ.get('VERIF_REPO', '/repo')
+    env = {k: v for k, v in os.environ.items() if k != 'PYTHONHASHSEED'}
+    env.update({'PYTHONPATH': repo, 'PYTHONHASHSEED': hashseed, 'PYTHONWARNINGS': 'ignore'})
+    code = "import sys; sys.argv[0]={!r}; from {} import main; main()".format(tool, cli.TOOLS[tool])
+
+    def pre():
+        for fd in closed:
+            try:
+                os.close(fd)
+            except OSError:
+                pass
+    p = subprocess.run([sys.executable] + (['-O'] if sys.flags.optimize else []) + ['-c', code] + [str(a) for a in args],
+                       stdin=subprocess.DEVNULL, stdout=subprocess.PIPE, stderr=subprocess.PIPE, cwd=cwd, env=env, timeout=120,
+                       preexec_fn=pre, encoding='utf-8', errors='replace')
+    return cli.Result(p.returncode & 0xFF, p.stdout or '', p.stderr or '', None)
+
+
+DESCRIPTOR_COMMANDS = [
+    # (tool, args, needs stdin)
+    ('cnfgen', ['-q', 'php', '3', '2'], False), ('cnfgen', ['php', '3', '2', '-T', 'xor', '2'], False), ('pbgen', ['-q', 'php', '3', '2'], False),
+    ('cnfgen', ['-q', 'dimacs', '@CNF'], False), ('pbgen', ['dimacs', '@CNF'], False), ('cnfgen', ['-q', 'kcolor', '3', 'kthlist', '@DAG'], False),
+    ('cnfshuffle', ['-q', '--seed', '1', '-i', '@CNF'], False), ('cnfshuffle', ['--seed', '3', '-i', '@CNF'], False),
+    ('kthlist2pebbling', ['-q', '-i', '@DAG'], False), ('kthlist2pebbling', ['-i', '@DAG', 'xor', '2'], False),
+    ('cnfgen', ['-q', '-of', 'latex', 'op', '3'], False), ('cnfgen', ['-q', '-of', 'opb', 'count', '4', '2'], False),
+    ('cnfgen', ['-q', 'dimacs'], True), ('pbgen', ['-q', 'dimacs'], True), ('cnfshuffle', ['-q'], True), ('kthlist2pebbling', ['-q'], True),
+    ('cnfgen', ['-q', 'kcolor', '3', 'kthlist'], True), ('cnfgen', ['-q', 'peb', 'kthlist'], True),
+    # command lines that are wrong whatever the descriptors are
+    ('cnfgen', ['php'], False), ('cnfgen', ['nosuchformula'], False), ('pbgen', ['nosuchformula'], False), ('cnfgen', ['kcolor', '3', '@MISSING'], False),
+    ('cnfgen', ['php', '3', 'x'], False), ('cnfshuffle', ['-i', '@MISSING'], False), ('kthlist2pebbling', ['-i', '@MISSING'], False), ('cnfgen', ['php', '3', '2', '-T', 'bogus'], False),
+]
+
+
+def run_descriptors(case):
+    tool, closed = case['tool'], case['closed']
+    d = tempfile.mkdtemp(prefix="c18d_")
+    try:
+        with open(os.path.join(d, 'f.cnf'), 'w') as fh:
+            fh.write("c a file\np cnf 3 3\n1 -2 0\n2 3 0\n-1 0\n")
+        with open(os.path.join(d, 'g.kthlist'), 'w') as fh:
+            fh.write("4\n1 : 0\n2 : 0\n3 : 1 2 0\n4 : 3 0\n")
+        args = [{'@CNF': 'f.cnf', '@DAG': 'g.kthlist', '@MISSING': 'no_such_file.kthlist'}.get(a, a) for a in case['args']]
+        if case.get('to_file'):
+            args = ['-o', 'out.txt'] + args if tool in ('cnfgen', 'pbgen') else args + ['-o', 'out.txt']
+            if tool == 'kthlist2pebbling':      # options first
+                args = ['-o', 'out.txt'] + [a for a in args if a not in ('-o', 'out.txt')]
+        ref = _run_closed(tool, args, (), d)                      # nothing closed (standard input on /dev/null)
+        if case.get('to_file') and os.path.exists(os.path.join(d, 'out.txt')):
+            refdoc = open(os.path.join(d, 'out.txt'), encoding='utf-8', errors='replace').read()
+            os.unlink(os.path.join(d, 'out.txt'))
+        else:
+            refdoc = ref.out
+        r = _run_closed(tool, args, closed, d)
+        doc = r.out
+        if case.get('to_file') and os.path.exists(os.path.join(d, 'out.txt')):
+            doc = open(os.path.join(d, 'out.txt'), encoding='utf-8', errors='replace').read()
+    finally:
+        shutil.rmtree(d, ignore_errors=True)
+    names = {0: 'standard input', 1: 'standard output', 2: 'standard error'}
+    what = "{} {} with the {} closed".format(tool, ' '.join(args), ' and the '.join(names[f] for f in closed))
+    if TRACE.search(r.err) or TRACE.search(r.out):
+        raise Violation("{}: a traceback is printed: {!r}".format(what, (r.err or r.out)[-300:]))
+    labels = [tool, 'closed:' + ','.join(str(f) for f in closed)]
+    needs_closed = (0 in closed and case['needs_stdin']) or (1 in closed and not case.get('to_file') and ref.code == 0)
+    if ref.code == 0 and not needs_closed:
+        # the command line is fine and does not need what is closed: same formula, exit status 0
+        if r.code != 0:
+            raise Violation("{}: exit status {} although the command line is legal and does not use that descriptor (stderr {!r})".format(what, r.code, r.err[:200]))
+        if 1 not in closed or case.get('to_file'):
+            strip = lambda t: "\n".join(l for l in t.split("\n") if not l.startswith(('c ', '* ', '% ')) and l.strip() not in ('c', '*', '%'))    # noqa
+            if strip(doc) != strip(refdoc):
+                raise Violation("{}: the formula differs from the one produced with nothing closed".format(what))
+        labels.append('works-without-it')
+        return Outcome(labels=labels, nontrivial=True)
+    # an error is due: from the command line itself, or because a needed descriptor is closed
+    if r.code == 0:
+        raise Violation("{}: exit status 0 although {}".format(
+            what, 'the command line is wrong' if ref.code != 0 else 'it needs a descriptor that is closed'))
+    if r.out.strip():
+        raise Violation("{}: exit status {} but text on the standard output: {!r}".format(what, r.code, r.out[:120]))
+    if 2 not in closed:
+        if not r.err.strip():
+            raise Violation("{}: exit status {} without any message".format(what, r.code))
+        bad = [l for l in r.err.split('\n') if l.strip() and not l.startswith(('c ', '* ', '% ', 'c', '*', '%'))]
+        if bad:
+            raise Violation("{}: error message line not shielded: {!r}".format(what, bad[0][:160]))
+    labels.append('clean-error')
+    return Outcome(labels=labels, nontrivial=True)
+
+
+def enum_descriptors(tier):
+    i = 0
+    for tool, args, needs in DESCRIPTOR_COMMANDS:
+        for closed in ([0], [2], [0, 2], [1], [0, 1, 2]):
+            for to_file in (False, True):
+                if to_file and (needs and tool in ('cnfgen', 'pbgen') and False):
+                    continue
+                i += 1
+                if tier == 'quick' and i % 3 != 1:
+                    continue
+                yield {'tool': tool, 'args': args, 'needs_stdin': needs, 'closed': closed, 'to_file': to_file}
+
+
 TOOLS = ['cnfgen', 'pbgen', 'cnfshuffle', 'kthlist2pebbling']
 
 SUBCHECKS = [
@@ -694,6 +803,9 @@ SUBCHECKS = [
     SubCheck('subprocess', run_subprocess_case, strategy=strat_case, enumerate_cases=enum_subprocess, quick=32, thorough=2500,
              rule="the same generator, each command line run as a real process; enumerated: commands that read a formula or a graph from the standard input (every format keyword, and none) fed through a pipe with good and with malformed text (python -c 'from <tool module> import main; main()') and compared with the in-process verdict",
              required_labels=['subprocess']),
+    SubCheck('descriptors', run_descriptors, enumerate_cases=enum_descriptors, opt_pass=False,
+             rule="26 command lines of the four tools (12 legal ones that do not read the standard input, 6 that read a formula or a graph from it, 8 wrong ones) x the standard input, the standard error, both, the standard output, or all three CLOSED before the interpreter starts (as `<&-`, `2>&-`, `>&-` do: sys.stdin / sys.stdout / sys.stderr are None) x output to the standard output or to -o <file> (quick: a third); oracle: never a traceback; a legal command line that does not need what is closed exits 0 with the same formula as with nothing closed; a wrong command line, or one that needs a closed descriptor, exits non-zero, writes nothing to the standard output and - when the standard error is open - a shielded message; non-trivial: all",
+             required_labels=['closed:0', 'closed:2', 'closed:1', 'closed:0,2', 'closed:0,1,2', 'works-without-it', 'clean-error'] + TOOLS),
     SubCheck('environment', run_environment, enumerate_cases=enum_environment,
              rule="real processes under five environments (default, stdout limited to ASCII, to latin-1, C locale without UTF-8 mode, UTF-8 mode) x command lines of the four tools that are legal but not ASCII (numbers typed with fullwidth digits, graph files and -o files with accented / Greek names, comments with accented letters on stdin), every output format, to stdout and to files (quick: a quarter, half under ASCII stdout); plus every tool writing to a device on which every write fails (/dev/full, as standard output and as -o file): non-zero exit status and a shielded message, never exit 0; same oracle as 'hostile' on the process; non-trivial: a non-ASCII argument or a non-default environment",
              required_labels=['env:stdout-ascii', 'env:C-locale', 'non-ascii-argument', 'success', 'device-full']),
